@@ -28,6 +28,7 @@ import (
 	_ "verif/harness/comp"
 	_ "verif/harness/fdcheck"
 	_ "verif/harness/gsim"
+	_ "verif/harness/nodes"
 	"verif/harness/props"
 )
 
